@@ -4,8 +4,9 @@ restart it on the same cache_dir, compare every hit with the versions the origin
 Scenario line (space separated):
   <store> <h> <nkeys> <phase> [<phase> ...]
     store   rock<slotsize> | ufs | aufs     one fresh squid instance + cache_dir per scenario (copy of a `squid -z` template)
-    h       calibrated number of bytes squid adds to a body of this rig's fixed-shape responses when it swaps the object
-            out (swap metadata + reply header); learned at build time, a line made for another value yields `bad-calibration`
+    h       `auto`, or `<h>.<hdr>`: the calibrated number of bytes squid adds to a body of this rig's fixed-shape responses when it
+            swaps the object out (swap metadata + reply header) and the size of the swap metadata alone; learned at build time
+            (the observation starts with `cal=<h>.<hdr>`); a line made for other values yields `bad-calibration`
     nkeys   number of URLs (keys 0..nkeys-1): http://c16.test/sc16/k<kk>
     phase   <ops>@<crash>   squid is started (first phase: on the empty cache_dir, later: on what the previous phase left),
                             the ops run one after the other, then squid is killed if the crash point has not killed it.
@@ -98,7 +99,7 @@ def parse_crash(tok):
 
 def parse_line(line):
     t = line.split(" ")
-    if len(t) < 4 or dirconf(t[0]) is None or not t[1].isdigit() or not t[2].isdigit():
+    if len(t) < 4 or dirconf(t[0]) is None or not re.fullmatch(r"auto|\d+\.\d+", t[1]) or not t[2].isdigit():
         return None
     nk = int(t[2])
     if not (1 <= nk <= 40) or len(t) > 8:
@@ -118,7 +119,7 @@ def parse_line(line):
     m = re.fullmatch(r"rock(\d+)", t[0])
     if m and not (512 <= int(m.group(1)) <= 32768):
         return None
-    return {"store": t[0], "h": int(t[1]), "nkeys": nk, "phases": phases}
+    return {"store": t[0], "cal": None if t[1] == "auto" else tuple(int(x) for x in t[1].split(".")), "nkeys": nk, "phases": phases}
 
 
 # ------------------------------------------------------------------------------------------------ the squid instance
@@ -540,7 +541,7 @@ class Run:
                     continue
                 data = open(os.path.join(root, fn), "rb").read()
                 keyname, tag, hdr = self.identify_file(data)
-                files.append((int(fn, 16), "%x,%s,%d,%s" % (int(fn, 16), keyname, len(data), tag)))
+                files.append((int(fn, 16), "%d,%s,%d,%d,%s" % (int(fn, 16), keyname, hdr, len(data), tag)))
         files.sort()
         return "ufs:%s:%s" % ("/".join(recs) or "-", ";".join(f[1] for f in files) or "-")
 
@@ -773,6 +774,7 @@ class Harness:
         for j in range(4):
             self.keys[store_key(EXTRA_URL % j).hex()] = "x%d" % j
         self.h = 0
+        self.hdr = 0
         self.h = self.calibrate()
 
     def keyname(self, hexkey):
@@ -793,7 +795,7 @@ class Harness:
 
     def calibrate(self):
         """bytes squid adds to the body of this rig's responses on swap-out (swap metadata + reply header), from a rock trace"""
-        run = Run(self, {"store": "rock4096", "h": 0, "nkeys": 1, "phases": []}, 0)
+        run = Run(self, {"store": "rock4096", "cal": None, "nkeys": 1, "phases": []}, 0)
         try:
             obs = run.run_phase([("S", 0, 100, 1)], ("e", 0, 0, False))
             tr = run.trace[-1]
@@ -802,6 +804,10 @@ class Harness:
                 hd = rock_header(r["data"]) if r["kind"] == "W" and r["path"] == "rock" else None
                 if hd and hd["key"] == store_key(URLFMT % 0).hex():
                     total += hd["ps"]
+                    if hd["first"] * 4096 + ROCK_HEADER == r["off"]:
+                        meta = parse_meta(r["data"][CELL:] + b"\0" * 4096)
+                        # the logged prefix is shorter than the metadata: read its length field only
+                        self.hdr = struct.unpack("<i", r["data"][CELL + 1:CELL + 5])[0]
             if "S=ok" not in obs or total <= 100:
                 raise RuntimeError("calibration run failed: %s / %d events; %s" % (obs, len(tr), run.sq.cache_log()[-600:]))
             return total - 100
@@ -812,7 +818,7 @@ class Harness:
         sc = parse_line(line)
         if sc is None:
             return "bad-op"
-        if sc["h"] != self.h:
+        if sc["cal"] is not None and sc["cal"] != (self.h, self.hdr):
             return "bad-calibration"
         with self.lock:
             self.n += 1
@@ -824,7 +830,7 @@ class Harness:
             for ops, crash in sc["phases"]:
                 obs.append(run.run_phase(ops, crash))
             obs.append(run.finale())
-            return " | ".join(obs) + " trace=" + run.trace_text() + " img=" + "|".join(run.images)
+            return "cal=%d.%d | " % (self.h, self.hdr) + " | ".join(obs) + " trace=" + run.trace_text() + " img=" + "|".join(run.images)
         except (OSError, RuntimeError) as e:
             self.crashes += 1
             return "abort:harness-error:%s:%s" % (type(e).__name__, re.sub(r"\s+", "_", str(e))[:120])
